@@ -58,24 +58,24 @@ theorem objValidUnits_leaves_database_list (s : CState) (c u c' : Sym) :
 this is the obligation that fails) -/
 theorem cstep_preserves_Inv {s : CState} (h : Inv lg s) {op : COp} (hc : opClean lg op = true) :
     Inv lg (cstep lg s op).1 := by
-  obtain ⟨hr, hs, hn⟩ := h
+  obtain ⟨hr, hs, hn, hd⟩ := h
   cases op with
   | query q =>
-    obtain ⟨_, i, r⟩ := answer_refines lg q hs hn
+    obtain ⟨_, i, r⟩ := answer_refines lg q hs hn hd
     simp only [cstep]
-    exact ⟨by rw [r]; exact hr, i, by rw [r]; exact hn⟩
+    exact ⟨by rw [r]; exact hr, i, by rw [r]; exact hn, dext_dinv (answer_dext lg s q) hd⟩
   | reg op =>
     simp only [cstep]
     have hr' := step_inv lg hr op
     have hn' := step_noLegacy lg hr hn (op := op) hc
     cases ho : (step lg s.reg op).2 with
-    | ok o => exact ⟨hr', sinv_fresh lg _, hn'⟩
+    | ok o => exact ⟨hr', sinv_fresh lg _, hn', dinv_fresh _⟩
     | error e =>
       have : (step lg s.reg op).1 = s.reg :=
         rejected_id lg hr (show step lg s.reg op = ((step lg s.reg op).1, .error e) by rw [← ho])
       simp only
       rw [this]
-      exact ⟨hr, hs, hn⟩
+      exact ⟨hr, hs, hn, hd⟩
 
 /-- … hence every history -/
 theorem crun_preserves_Inv {s : CState} (h : Inv lg s) (ops : List COp) (hc : ops.all (opClean lg) = true) :
@@ -94,7 +94,7 @@ theorem crun_preserves_Inv {s : CState} (h : Inv lg s) (ops : List COp) (hc : op
 built database over the same registry** (`spec` = empty memo tables).  Partial: for registries
 without units registered under legacy spellings. -/
 theorem refinement_partial {s : CState} (h : Inv lg s) (q : Query) : (answer lg s q).2 = spec lg s.reg q :=
-  (answer_refines lg q h.2.1 h.2.2).1
+  (answer_refines lg q h.2.1 h.2.2.1 h.2.2.2).1
 
 /-- **warm = fresh for every history**: each step of any interleaving of queries, failing
 operations and registrations (over symbols that are not legacy spellings) has the outcome it has on
@@ -129,6 +129,30 @@ theorem earlier_queries_invisible {s : CState} (h : Inv lg s) (q : Query) (later
   have e : (cstep lg s (.query q)).1 = (answer lg s q).1 := rfl
   rw [e] at hi
   rw [warm_eq_fresh_partial lg hi later hc, warm_eq_fresh_partial lg h later hc, answer_reg]
+
+/-! ### derived quantities: the composition order of a request is never taken from an earlier one -/
+
+/-- **a product, quotient or `ObtainQuantity(OrderedDict)`/`CreateDerived` request answers with its
+own composing map** (categories and units in the order of THIS request), whatever compositions,
+in whatever order, were asked for before: the derived part of `quantities_cache` is keyed by the
+entries in request order, so it is invisible too (instance of `refinement_partial`, spelled out) -/
+theorem derived_request_order_independent {s : CState} (h : Inv lg s) (entries : List (Sym × Sym × Int)) :
+    (answer lg s (.derived entries)).2 = spec lg s.reg (.derived entries)
+    ∧ (answer lg s (.createDerived entries)).2 = spec lg s.reg (.createDerived entries) :=
+  ⟨refinement_partial lg h _, refinement_partial lg h _⟩
+
+/-- a derived quantity that is created keeps exactly the composing map it was asked with -/
+theorem derived_keeps_request_order (r : Registry) (entries : List (Sym × Sym × Int)) (d : DObj)
+    (hns : simpleCase entries = none) (h : spec lg r (.derived entries) = .ok (.desc d)) : d.entries = entries := by
+  unfold spec answer obtainDict at h
+  simp only [hns, CState.fresh, dcacheGet] at h
+  unfold newDerived at h
+  cases ht : typePairs r entries [] with
+  | error e => rw [ht] at h; simp [exMap] at h
+  | ok qts =>
+    rw [ht] at h
+    simp only [exMap, Except.ok.injEq, Ans.desc.injEq] at h
+    rw [← h]
 
 /-! ### the counterexample to the unrestricted refinement, and non-vacuity -/
 
@@ -178,5 +202,25 @@ example : (crun [] (CState.fresh Registry.empty) (negativeVerdictHistory.take 4)
   decide +kernel
 example : (crun [] (CState.fresh Registry.empty) (negativeVerdictHistory.take 7)).cache.length = 1 := by
   decide +kernel
+
+/-- the same composition in both orders inside one history (1 = length, 2 = m, 5 = depth,
+7 = second category of the same type): each product reports its own order -/
+def bothOrdersHistory : List COp :=
+  [.reg (.addUnitBase (.str 1) 10 (.str 2)),
+   .reg (.addCategory ⟨.str 5, some 1, none, false, none, none, none, none, false, false, 0, none⟩),
+   .reg (.addCategory ⟨.str 7, some 1, none, false, none, none, none, none, false, false, 0, none⟩),
+   .query (.prod .mul 5 2 7 2 2 3),
+   .query (.prod .mul 7 2 5 2 3 2),
+   .query (.derived [(7, 2, 1), (5, 2, -1)]),
+   .query (.derived [(5, 2, -1), (7, 2, 1)]),
+   .query (.prod .div 5 2 7 2 6 3)]
+
+example : (coutputs [] (CState.fresh Registry.empty) bothOrdersHistory).drop 3
+    = [.ok (.ans (.descValue ⟨[(5, 2, 1), (7, 2, 1)], [(1, 2)]⟩ 6)),
+       .ok (.ans (.descValue ⟨[(7, 2, 1), (5, 2, 1)], [(1, 2)]⟩ 6)),
+       .ok (.ans (.desc ⟨[(7, 2, 1), (5, 2, -1)], [(1, 0)]⟩)),
+       .ok (.ans (.desc ⟨[(5, 2, -1), (7, 2, 1)], [(1, 0)]⟩)),
+       .ok (.ans (.descValue ⟨[], []⟩ 2))] := by decide +kernel
+example : (crun [] (CState.fresh Registry.empty) bothOrdersHistory).dcache.length = 5 := by decide +kernel
 
 end Barril.Reg
